@@ -149,9 +149,9 @@ def add_controls(wn, ctrls):
         act = C.ControlAction(target, attr, val)
         k = c["kind"]
         if k == "time":
-            cond = C.SimTimeCondition(wn, c.get("rel", "="), c["t"])
+            cond = C.SimTimeCondition(wn, c.get("rel", "="), c["t"], repeat=c.get("repeat", False))
         elif k == "clock":
-            cond = C.TimeOfDayCondition(wn, c.get("rel", "="), c["t"])
+            cond = C.TimeOfDayCondition(wn, c.get("rel", "="), c["t"], repeat=c.get("repeat", True))
         elif k == "level":
             cond = C.ValueCondition(wn.get_node(c["node"]), "level", c["rel"], c["thr"])
         elif k == "pressure":
